@@ -897,6 +897,7 @@ func (fr *frame) env(cur, old *State, l *loop) *Env {
 	ev.local = func(name string) (Value, bool) {
 		return fr.localValue(name, cur, l)
 	}
+	ev.preferLocals = l != nil
 	return ev
 }
 
